@@ -364,7 +364,13 @@ fn receiver(rx: Rx, plan: RxPlan, seed: u64) {
                 if tx_gone_before {
                     c.fail(format!("{m}: Empty/Timeout although every Sender had been dropped before the call"));
                 }
-                c.yield_now();
+                // polling: let the others run (a coroutine must give its worker back, or a
+                // sender coroutine may never get one)
+                if co != 0 {
+                    may::coroutine::yield_now();
+                } else {
+                    c.yield_now();
+                }
             }
             _ => {
                 disconnected(&c, plan.single, mine);
